@@ -1,7 +1,8 @@
 (* Runner for property C14: wire arguments -> model -> wire result.
      c14 header <signed> <uuid_ok> <digest_present> ( stamp... ) ( link... )
          stamp = ( prv val ) or ( ) for a nil entry; link = ( key url_ok url ) or ( ) for nil
-         -> as shipped: 0 = valid, 1 = validation error, "panic"; for signed = 1 only panic / 2
+         -> two results, as shipped and repaired: 0 = valid, 1 = validation error, "panic";
+            for signed = 1 only panic / 2
             (the signed context can only be reached through an envelope, whose other checks
             then decide between valid and error)
      c14 notes ( scenario note... ) ( note... )      note = ( key code src text ) or ( )
@@ -27,11 +28,13 @@ Definition run_c14 (args : list V) : list V :=
       match rest with
       | [sg; u; d; ss; ls] =>
         let h := mkHeader (vbool u) (vbool d) (map stamp_of (vl ss)) (map link_of (vl ls)) in
-        match validate_header false (vbool sg) h with
-        | Panic => [VS (bs "panic")]
-        | Ok _ => [VI (if vbool sg then 2 else 0)]
-        | Err _ => [VI (if vbool sg then 2 else 1)]
-        end
+        let cls (g : bool) :=
+          match validate_header g (vbool sg) h with
+          | Panic => VS (bs "panic")
+          | Ok _ => VI (if vbool sg then 2 else 0)
+          | Err _ => VI (if vbool sg then 2 else 1)
+          end in
+        [cls false; cls true]
       | _ => [verr "bad-args"]
       end
     else if String.eqb op "notes" then
